@@ -210,15 +210,15 @@ Proof.
     intros x Lx Ox. eapply orphan_upd; eauto. intros _ k1 H. eapply nth_enum_scal_noref; exact H.
 Qed.
 
-Lemma actions_forest : forall acts h r h' ok,
-  run_actions h r acts = (h', ok) -> wf h -> (r < length h)%nat -> forest h -> forallb act_fresh acts = true ->
-  wf h' /\ forest h' /\ (length h <= length h')%nat /\ (forall x, (x < length h)%nat -> orphan h x -> orphan h' x).
+Lemma actions_forest N : forall acts h r h' ok,
+  run_actions h r acts = (h', ok) -> wf h -> (r < length h)%nat -> forest N h -> forallb act_fresh acts = true ->
+  wf h' /\ forest N h' /\ (length h <= length h')%nat /\ (forall x, (x < length h)%nat -> orphan N h x -> orphan N h' x).
 Proof.
   induction acts as [|a rest IH]; intros h r h' ok Run W R F AF; cbn [run_actions] in Run.
   - inversion Run; subst. split; [exact W|]. split; [exact F|]. split; [lia | auto].
   - cbn [forallb] in AF. apply andb_true_iff in AF as [AFa AFr].
     destruct (run_action h r a) as [h1|] eqn:E.
-    + destruct (action_forest h r a h1 E W R F AFa) as (W1 & F1 & L1 & O1).
+    + destruct (action_forest N h r a h1 E W R F AFa) as (W1 & F1 & L1 & O1).
       destruct (IH h1 r h' ok Run W1 ltac:(lia) F1 AFr) as (W2 & F2 & L2 & O2).
       split; [exact W2|]. split; [exact F2|]. split; [lia|]. intros x Lx Ox. apply O2; [lia | apply O1; auto].
     + inversion Run; subst. split; [exact W|]. split; [exact F|]. split; [lia | auto].
@@ -260,31 +260,41 @@ Proof.
   - reflexivity.
 Qed.
 
-(* ALL histories of such operations on one object keep the heap a forest and keep unreferenced objects unreferenced *)
-Theorem ops_keep_forest K i : forall os s,
-  wf (sh s) -> (forall r, In r (sroots s) -> (r < length (sh s))%nat) -> forest (sh s) -> forallb op_fresh os = true ->
-  let s' := run_hevent K s (HOps i os) in
-  wf (sh s') /\ forest (sh s') /\ sroots s' = sroots s /\ (length (sh s) <= length (sh s'))%nat /\
-  (forall x, (x < length (sh s))%nat -> orphan (sh s) x -> orphan (sh s') x).
+Lemma fresh_list_above N h acts : fresh_list acts = true -> Forall (act_above N h) acts.
 Proof.
-  induction os as [|o os IH]; intros s W B F OK.
-  - cbn [run_hevent fold_left]. split; [exact W|]. split; [exact F|]. split; [reflexivity|]. split; [lia | auto].
+  unfold fresh_list. induction acts as [|a r IH]; cbn [forallb]; intros H; constructor.
+  - apply andb_true_iff in H as [Ha _]. unfold act_fresh in Ha. unfold act_above. destruct (act_src a) as [s|]; [|exact I].
+    destruct s; simpl in *; auto; discriminate.
+  - apply andb_true_iff in H as [_ Hr]. auto.
+Qed.
+
+(* ALL histories of such operations on one instance (an object at or above N) keep the region above N a forest, closed, and keep
+   unreferenced objects unreferenced *)
+Theorem ops_keep_forest K N i : forall os s r,
+  nth_error (sroots s) i = Some r -> (N <= r < length (sh s))%nat ->
+  wf (sh s) -> closed_above N (sh s) -> forest N (sh s) -> forallb op_fresh os = true ->
+  let s' := run_hevent K s (HOps i os) in
+  wf (sh s') /\ closed_above N (sh s') /\ forest N (sh s') /\ sroots s' = sroots s /\ (length (sh s) <= length (sh s'))%nat /\
+  (forall x, (x < length (sh s))%nat -> orphan N (sh s) x -> orphan N (sh s') x).
+Proof.
+  induction os as [|o os IH]; intros s r Er Br W C F OK.
+  - cbn [run_hevent fold_left]. split; [exact W|]. split; [exact C|]. split; [exact F|]. split; [reflexivity|]. split; [lia | auto].
   - cbn [forallb] in OK. apply andb_true_iff in OK as [Oo Oos].
     change (run_hevent K s (HOps i (o :: os))) with (run_hevent K (run_fevent K s (FOp i o)) (HOps i os)).
-    assert (Step : wf (sh (run_fevent K s (FOp i o))) /\ forest (sh (run_fevent K s (FOp i o))) /\
-                   sroots (run_fevent K s (FOp i o)) = sroots s /\ (length (sh s) <= length (sh (run_fevent K s (FOp i o))))%nat /\
-                   (forall x, (x < length (sh s))%nat -> orphan (sh s) x -> orphan (sh (run_fevent K s (FOp i o))) x)).
-    { unfold run_fevent. cbn [lower]. destruct (nth_error (sroots s) i) as [r|] eqn:Er; cbn [run_event]; rewrite Er.
-      - destruct (run_actions (sh s) r (compile_op K (sh s) r o)) as [h' ok] eqn:Run. cbn [fst sh sroots].
-        destruct (actions_forest _ _ _ _ _ Run W (B r (nth_error_In _ _ Er)) F (compile_op_fresh K (sh s) r o Oo)) as (W1 & F1 & L1 & O1).
-        split; [exact W1|]. split; [exact F1|]. split; [reflexivity|]. split; [exact L1 | exact O1].
-      - cbn [run_actions fst]. destruct s as [hh rr]; cbn [sh sroots] in *.
-        split; [exact W|]. split; [exact F|]. split; [reflexivity|]. split; [lia | auto]. }
-    destruct Step as (W1 & F1 & R1 & L1 & O1).
-    assert (B1 : forall r, In r (sroots (run_fevent K s (FOp i o))) -> (r < length (sh (run_fevent K s (FOp i o))))%nat).
-    { intros r Hr. rewrite R1 in Hr. specialize (B r Hr). lia. }
-    destruct (IH (run_fevent K s (FOp i o)) W1 B1 F1 Oos) as (W2 & F2 & R2 & L2 & O2).
-    split; [exact W2|]. split; [exact F2|]. split; [rewrite R2; exact R1|]. split; [lia|].
+    set (s1 := run_fevent K s (FOp i o)).
+    assert (Step : wf (sh s1) /\ closed_above N (sh s1) /\ forest N (sh s1) /\ sroots s1 = sroots s /\
+                   (length (sh s) <= length (sh s1))%nat /\
+                   (forall x, (x < length (sh s))%nat -> orphan N (sh s) x -> orphan N (sh s1) x)).
+    { unfold s1, run_fevent. cbn [lower]. rewrite Er. cbn [run_event]. rewrite Er.
+      destruct (run_actions (sh s) r (compile_op K (sh s) r o)) as [h' ok] eqn:Run. cbn [fst sh sroots].
+      pose proof (compile_op_fresh K (sh s) r o Oo) as Fr.
+      destruct (actions_forest N _ _ _ _ _ Run W (proj2 Br) F Fr) as (W1 & F1 & L1 & O1).
+      destruct (actions_above N _ _ _ _ _ Run W C Br (fresh_list_above N (sh s) _ Fr)) as (_ & C1 & _ & _).
+      split; [exact W1|]. split; [exact C1|]. split; [exact F1|]. split; [reflexivity|]. split; [exact L1 | exact O1]. }
+    destruct Step as (W1 & C1 & F1 & R1 & L1 & O1).
+    assert (Er1 : nth_error (sroots s1) i = Some r) by (rewrite R1; exact Er).
+    destruct (IH s1 r Er1 ltac:(lia) W1 C1 F1 Oos) as (W2 & C2 & F2 & R2 & L2 & O2).
+    split; [exact W2|]. split; [exact C2|]. split; [exact F2|]. split; [rewrite R2; exact R1|]. split; [lia|].
     intros x Lx Ox. apply O2; [lia | apply O1; auto].
 Qed.
 
@@ -320,31 +330,93 @@ Proof.
   destruct (cell_get_nth _ _ _ G) as (i & Hi). exists m, i, o. auto.
 Qed.
 
-(* in a forest there is exactly one path from an unreferenced object to each object it reaches *)
-Theorem forest_unique_paths h r : forest h -> orphan h r ->
+(* in a forest there is exactly one path from an unreferenced object (at or above N) to each object it reaches *)
+Theorem forest_unique_paths N h r : forest N h -> closed_above N h -> (N <= r)%nat -> orphan N h r ->
   forall p q l, resolve h r p = Some l -> resolve h r q = Some l -> p = q.
 Proof.
-  intros F Or. induction p as [|kp p IH] using rev_ind; intros q l Hp Hq.
+  intros F C Nr Or.
+  assert (Ab : forall p m, resolve h r p = Some m -> (N <= m)%nat).
+  { intros p m H. apply resolve_reach in H. eapply closed_above_reach; [exact C | exact Nr | exact H]. }
+  induction p as [|kp p IH] using rev_ind; intros q l Hp Hq.
   - cbn in Hp. inversion Hp; subst l. destruct q as [|kq q] using rev_ind; [reflexivity|].
-    destruct (resolve_snoc_parent _ _ _ _ _ Hq) as (m & i & o & _ & Ho & Hc). exfalso. apply (Or m i). exists o, kq. auto.
+    destruct (resolve_snoc_parent _ _ _ _ _ Hq) as (m & i & o & Rm & Ho & Hc). exfalso. apply (Or m i (Ab _ _ Rm)). exists o, kq. auto.
   - destruct (resolve_snoc_parent _ _ _ _ _ Hp) as (m1 & i1 & o1 & R1 & Ho1 & Hc1).
     destruct q as [|kq q _] using rev_ind.
-    + cbn in Hq. inversion Hq; subst l. exfalso. apply (Or m1 i1). exists o1, kp. auto.
+    + cbn in Hq. inversion Hq; subst l. exfalso. apply (Or m1 i1 (Ab _ _ R1)). exists o1, kp. auto.
     + destruct (resolve_snoc_parent _ _ _ _ _ Hq) as (m2 & i2 & o2 & R2 & Ho2 & Hc2).
-      destruct (F l m1 i1 m2 i2) as (Em & Ei); [exists o1, kp; auto | exists o2, kq; auto|]. subst m2 i2.
+      destruct (F l m1 i1 m2 i2 (Ab _ _ R1) (Ab _ _ R2)) as (Em & Ei); [exists o1, kp; auto | exists o2, kq; auto|]. subst m2 i2.
       rewrite Ho1 in Ho2. inversion Ho2; subst o2. rewrite Hc1 in Hc2. inversion Hc2; subst kq.
       f_equal. apply (IH q m1 R1 R2).
 Qed.
 
-(* the restatement asked for after fix cfb58ac: from a forest state, after ANY history of the modelled operations on an object
-   (the explicit user aliasing excepted), every unreferenced object — each root instance — still has exactly one path to
-   everything it reaches: no aliasing between (or below) its __dict__ entries has arisen that copy() would drop *)
-Theorem ops_create_no_internal_alias K i os s r :
-  wf (sh s) -> (forall x, In x (sroots s) -> (x < length (sh s))%nat) -> forest (sh s) -> forallb op_fresh os = true ->
-  (r < length (sh s))%nat -> orphan (sh s) r ->
+(* the restatement asked for after fix cfb58ac: from a state whose region above N is a forest, after ANY history of the modelled
+   operations on an instance (the explicit user aliasing m.mine = m.names excepted), that instance — unreferenced before — still
+   has exactly one path to everything it reaches: no aliasing between (or below) its __dict__ entries has arisen that copy()
+   would drop, and the two memo policies of copy() cannot differ on it *)
+Theorem ops_create_no_internal_alias K N i os s r :
+  nth_error (sroots s) i = Some r -> (N <= r < length (sh s))%nat ->
+  wf (sh s) -> closed_above N (sh s) -> forest N (sh s) -> orphan N (sh s) r -> forallb op_fresh os = true ->
   forall p q l, resolve (sh (run_hevent K s (HOps i os))) r p = Some l ->
                 resolve (sh (run_hevent K s (HOps i os))) r q = Some l -> p = q.
 Proof.
-  intros W B F OK Lr Or. destruct (ops_keep_forest K i os s W B F OK) as (_ & F' & _ & _ & O').
-  apply forest_unique_paths; [exact F' | apply O'; auto].
+  intros Er Br W C F Or OK. destruct (ops_keep_forest K N i os s r Er Br W C F OK) as (_ & C' & F' & _ & _ & O').
+  apply (forest_unique_paths N); [exact F' | exact C' | lia | apply O'; [lia | exact Or]].
+Qed.
+
+(* ------------------------------------------------------------------ decidable sufficient conditions (for the examples) *)
+Fixpoint idx_from {X} (j : nat) (l : list X) : list (nat * X) :=
+  match l with [] => [] | x :: r => (j, x) :: idx_from (S j) r end.
+
+Lemma idx_from_in {X} : forall (l : list X) j i x, nth_error l i = Some x -> In ((j + i)%nat, x) (idx_from j l).
+Proof.
+  induction l as [|y r IH]; intros j i x H; [destruct i; discriminate|].
+  destruct i as [|i]; cbn in H |- *.
+  - inversion H; subst. left. f_equal. lia.
+  - right. replace (j + S i)%nat with (S j + i)%nat by lia. apply IH. exact H.
+Qed.
+
+Definition edges (N : nat) (h : heap) : list (nat * nat * loc) :=
+  flat_map (fun mo => if Nat.leb N (fst mo)
+                      then flat_map (fun ic => match snd (snd ic) with VR l => [(fst mo, fst ic, l)] | VS _ => [] end)
+                                    (idx_from 0 (ocells (snd mo)))
+                      else []) (idx_from 0 h).
+
+Lemma parent_in_edges N h m i l : (N <= m)%nat -> parent h m i l -> In (m, i, l) (edges N h).
+Proof.
+  intros Nm (o & k & Ho & Hc). unfold edges. apply in_flat_map. exists (m, o). split.
+  - apply (idx_from_in h 0 m o Ho).
+  - cbn [fst snd]. destruct (Nat.leb N m) eqn:E; [|apply Nat.leb_gt in E; lia].
+    apply in_flat_map. exists (i, (k, VR l)). split; [apply (idx_from_in (ocells o) 0 i _ Hc) | cbn; auto].
+Qed.
+
+Definition forestb (N : nat) (h : heap) : bool :=
+  forallb (fun e1 => forallb (fun e2 => negb (Nat.eqb (snd e1) (snd e2)) ||
+                                        (Nat.eqb (fst (fst e1)) (fst (fst e2)) && Nat.eqb (snd (fst e1)) (snd (fst e2))))
+                             (edges N h)) (edges N h).
+
+Lemma forestb_sound N h : forestb N h = true -> forest N h.
+Proof.
+  unfold forestb. intros H l m1 i1 m2 i2 N1 N2 P1 P2. rewrite forallb_forall in H.
+  specialize (H _ (parent_in_edges N h m1 i1 l N1 P1)). rewrite forallb_forall in H.
+  specialize (H _ (parent_in_edges N h m2 i2 l N2 P2)). cbn [fst snd] in H.
+  rewrite Nat.eqb_refl in H. cbn in H. apply andb_true_iff in H as [A B]. apply Nat.eqb_eq in A. apply Nat.eqb_eq in B. auto.
+Qed.
+
+Definition orphanb (N : nat) (h : heap) (r : loc) : bool := forallb (fun e => negb (Nat.eqb (snd e) r)) (edges N h).
+
+Lemma orphanb_sound N h r : orphanb N h r = true -> orphan N h r.
+Proof.
+  unfold orphanb. intros H m i Nm P. rewrite forallb_forall in H. specialize (H _ (parent_in_edges N h m i r Nm P)).
+  cbn [snd] in H. rewrite Nat.eqb_refl in H. discriminate.
+Qed.
+
+Definition closed_aboveb (N : nat) (h : heap) : bool := forallb (fun e => Nat.leb N (snd e)) (edges N h).
+
+Lemma closed_aboveb_sound N h : closed_aboveb N h = true -> closed_above N h.
+Proof.
+  unfold closed_aboveb. intros H m o l Nm Ho Hl. rewrite forallb_forall in H.
+  unfold refs in Hl. apply in_flat_map in Hl as ([k v] & Hc & Hv). destruct v as [z|x]; simpl in Hv; [tauto|]. destruct Hv as [->|[]].
+  apply In_nth_error in Hc as (i & Hi).
+  assert (P : parent h m i l) by (exists o, k; auto).
+  specialize (H _ (parent_in_edges N h m i l Nm P)). cbn [snd] in H. apply Nat.leb_le. exact H.
 Qed.
